@@ -22,3 +22,8 @@ func checkVectorEnvelope(prop, tag string, f *indep.File, want *spec.Obs) *Viola
 func vectorSegmentCheck(prop string, seg segment.Segment, want *spec.Obs, where string) *Violation {
 	return nil
 }
+
+func fakeReset()            {}
+func fakeLive() int64       { return 0 }
+func fakeOnOp(func(string)) {}
+func fakeOpCount() int64    { return 0 }
